@@ -423,11 +423,15 @@ def legal_host_script(rng, spec, profile, n_transfers, tags):
 # ----------------------------------------------------------------------------- a stream outside LegalHost
 def wild_script(rng, spec, n_events, tags):
     """Random events with little regard for transaction formats (correspondence only; no monitor, no legality).
-    Uses only what the model defines: no IN token to ep0 after an ACKed short descriptor packet is avoided by
-    choosing specs whose position register is 11 bits wide (see make_wild_spec)."""
+    Uses only what the model defines: the wedge of a narrow position register after an ACKed short descriptor packet is
+    avoided by choosing specs whose position register is 11 bits wide (see make_wild_spec), and IN tokens to ep0 with
+    `start_position` beyond wLength are not sent (see in_order_guard)."""
     host = Host(rng, spec, "c07", tags)
 
     def script(_h):
+        return in_order_guard(events(_h), _h, int(spec.get("mps", 64)), tags)
+
+    def events(_h):
         addr = 0
         for _ in range(n_events):
             k = rng.weighted([(30, "tok"), (22, "data"), (14, "hs"), (6, "setup"), (4, "raw"), (3, "quiet"), (2, "sof"),
@@ -461,6 +465,55 @@ def wild_script(rng, spec, n_events, tags):
             if _h.log:
                 addr = rng.weighted([(9, _h.log[-1].address), (1, addr)])
     return script
+
+
+def in_order_guard(gen, h, mps, tags):
+    """Keeps a wild event stream inside the domain of the event-level `descriptorPacket` (Model/Device/Control.lean).
+
+    The model computes `wLength - start_position` modulo 2^17; in the gateware (`GetDescriptorHandlerBlock`, Amaranth:
+    unsigned - unsigned is signed) it is negative once the host's ACKs have advanced `start_position` beyond wLength, the
+    16-bit `length` register then holds a huge value and the handler sends the REST of the descriptor in one packet
+    (e.g. 1036 bytes of an 1100-byte descriptor after GET_DESCRIPTOR with wLength 2, IN, ACK, IN at max packet size 64;
+    C09's cycle-level model Model/Usb2/DescriptorBlock.lean has the signed form).  The two differ when
+    `start_position > wLength` and more than `mps` bytes of the descriptor are left.  A legal host never gets there
+    (`legal_read_in_order_mps`); the wild host must not either: from the host's own view of the bus -- the last SETUP
+    packet the device ACKed is a standard GET_DESCRIPTOR, and (number of host ACKs that could have reached the handler
+    after a DATA answer to an IN on endpoint 0) x mps > wLength, an over-approximation of `start_position > wLength` --
+    an IN token for endpoint 0 of the device is not sent: the inner generator is told that nothing was answered."""
+    cur = None                 # wLength of the last ACKed SETUP packet if it is a standard GET_DESCRIPTOR
+    adv = 0                    # upper bound of the number of start_position advances since then
+    pending = False            # an IN on ep0 was answered with DATA and no counted ACK has followed
+    tok = (0, 0)               # (pid, ep) of the last token for the device's address; pid 0 after a token for another address
+    try:
+        ev = gen.send(None)
+        while True:
+            dev_addr = h.log[-1].address if h.log else 0
+            if (ev[0] == "tok" and ev[1] == I and ev[2] == dev_addr and ev[3] == 0 and cur is not None and adv * mps > cur):
+                tags.add("wild:in-beyond-wLength-suppressed")
+                res = DH.EventResult(list(ev), DH.Response(DH.RESP_NONE), dev_addr, h.log[-1].configuration if h.log else 0,
+                                     None, 0, h.cycle, [])
+                ev = gen.send(res)
+                continue
+            res = yield ev
+            if ev[0] == "tok":
+                if ev[2] == dev_addr:
+                    tok = (ev[1], ev[3])
+                    if ev[1] == I and ev[3] == 0 and res.resp.is_data:
+                        pending = True
+                else:
+                    tok = (0, tok[1])
+            elif ev[0] == "data":
+                if tok[0] == S and len(ev[2]) == 8 and res.resp.is_hs(ACK):
+                    su = ev[2]
+                    cur = (su[6] | (su[7] << 8)) if ((su[0] >> 5) & 3) == 0 and su[1] == 6 else None
+                    adv = 0                 # (`pending` is kept: expecting_ack survives a new SETUP in the model and the gateware)
+            elif ev[0] == "hs":
+                if ev[1] == ACK and tok == (I, 0) and pending:
+                    adv += 1
+                    pending = False
+            ev = gen.send(res)
+    except StopIteration:
+        return
 
 
 def make_wild_spec(rng):
@@ -855,6 +908,12 @@ ASSUMPTIONS = [
     "a new packet starts only after the previous response window (the harness waits for the end of the device's transmission "
     "or 18-24 idle cycles at 12 MHz)",
     "12 MHz full-speed UTMI configuration, block-RAM descriptor handler (all descriptors are bytes), no skiplist",
+    "the 'wild' scripts (outside LegalHost, correspondence only) stay inside the domain of the event-level descriptorPacket: "
+    "no IN token for endpoint 0 once the host's ACKs have advanced start_position beyond wLength of the latched GET_DESCRIPTOR "
+    "(dev_ctl.in_order_guard, decided from the host's own view of the bus) -- there the gateware's signed "
+    "`length - start_position` is negative and the block descriptor handler sends the whole rest of the descriptor in one "
+    "packet, which the event-level model (subtraction modulo 2^17, at most max_packet_size bytes) does not reproduce; C09's "
+    "cycle-level model does; LegalHost histories never get there (legal_read_in_order / legal_read_in_order_mps)",
 ]
 
 CYC_MODULES = ["LunaVerif.Lemmas.C07CycSteps", "LunaVerif.Lemmas.C07CycInv", "LunaVerif.Lemmas.C07Refine", "LunaVerif.Lemmas.C07RefineEvents",
